@@ -46,6 +46,15 @@ type Directive struct {
 	Elem  string       `json:"elem"`
 }
 
+// Moved is an element that lives in File now but lived in OldFile in the previous version: path-based
+// suppressions (ignore, ignore_only) apply when either location is covered.
+type Moved struct {
+	File    string       `json:"file"`
+	Start   protogen.Pos `json:"start"`
+	End     protogen.Pos `json:"end"`
+	OldFile string       `json:"old_file"`
+}
+
 // Config is a generated check configuration.
 type Config struct {
 	Version             string              `json:"version"`
@@ -65,6 +74,7 @@ type Case struct {
 	OldMods    []Mod                        `json:"old_modules,omitempty"`
 	Old        map[string]map[string]string `json:"old,omitempty"`
 	Directives []Directive                  `json:"directives,omitempty"`
+	Moved      []Moved                      `json:"moved,omitempty"`
 	Config     Config                       `json:"config"`
 }
 
@@ -325,15 +335,29 @@ func run(ctx context.Context, t interface {
 			}
 			total++
 			sup := ""
+			// the files an annotation belongs to: where it is now and, for a moved element, where it was
+			locs := []string{a.Path}
+			for _, mv := range c.Moved {
+				if mv.File == a.Path && (protogen.ElemPos{Start: mv.Start, End: mv.End}).Contains(protogen.Pos{Line: a.Line, Col: a.Col}) {
+					locs = append(locs, mv.OldFile)
+				}
+			}
 			for _, p := range cfg.Ignore {
-				if a.Path != "" && under(p, a.Path) {
-					sup = "ignore"
+				for _, l := range locs {
+					if l != "" && under(p, l) {
+						sup = "ignore"
+					}
 				}
 			}
 			for _, p := range ignoreOnlyRules[rule] {
-				if a.Path != "" && under(p, a.Path) {
-					sup = "ignore_only"
+				for _, l := range locs {
+					if l != "" && under(p, l) {
+						sup = "ignore_only"
+					}
 				}
+			}
+			if len(locs) > 1 {
+				r.Class("annotation-on-moved-element")
 			}
 			if c.Kind == "lint" && cfg.AllowCommentIgnores {
 				for _, d := range c.Directives {
@@ -678,7 +702,8 @@ func genLint(ctx context.Context, t *rapid.T) *Case {
 
 func genBreaking(ctx context.Context, t *rapid.T) *Case {
 	gcfg := protogen.DefaultConfig()
-	gcfg.MaxFiles, gcfg.UnusedImports = 4, false
+	gcfg.MaxFiles, gcfg.UnusedImports = 5, false
+	gcfg.MaxPackages, gcfg.MaxModules = 2, 2
 	ws := protogen.GenWorkspace(t, gcfg)
 	c := &Case{Kind: "breaking"}
 	c.Old = ws.Render().ByModule
@@ -688,6 +713,20 @@ func genBreaking(ctx context.Context, t *rapid.T) *Case {
 	nw := ws.Clone()
 	ed := protogen.NewEditor(t)
 	hot := map[string]bool{}
+	// sometimes: move a message to a sibling file of its package and delete one of its fields, so that an
+	// annotation's current and previous locations are different files
+	var movedMsg *protogen.Message
+	var movedFrom string
+	if rapid.Bool().Draw(t, "move") {
+		if m, from, _, ok := ed.MoveMessage(nw); ok {
+			if f := ed.DeleteFieldOf(m); f != nil {
+				movedMsg, movedFrom = m, from.Path
+				hot["FIELD_NO_DELETE"] = true
+				hot["FIELD_NO_DELETE_UNLESS_NUMBER_RESERVED"] = true
+				hot["MESSAGE_NO_DELETE"] = true
+			}
+		}
+	}
 	for i := 0; i < rapid.IntRange(2, 5).Draw(t, "edits"); i++ {
 		e := ed.ApplyBreaking(nw)
 		if e == nil {
@@ -697,14 +736,23 @@ func genBreaking(ctx context.Context, t *rapid.T) *Case {
 			hot[r] = true
 		}
 	}
-	c.Files = nw.Render().ByModule
+	nr := nw.Render()
+	c.Files = nr.ByModule
 	for _, m := range nw.Modules {
 		c.Mods = append(c.Mods, Mod{m.Dir, m.Name, true})
 	}
 	if _, err := buildMods(ctx, c.Mods, c.Files); err != nil {
 		t.Skip("edited combination does not build")
 	}
-	c.Config = genConfig(t, "breaking", allPaths(c.Files), protogen.SortedKeys(hot))
+	paths := allPaths(c.Files)
+	if movedMsg != nil {
+		if pos, ok := nr.Pos[movedMsg.ID]; ok {
+			c.Moved = append(c.Moved, Moved{File: nr.FileOf[movedMsg.ID], Start: pos.Start, End: pos.End, OldFile: movedFrom})
+			// make suppressions of the old location likely
+			paths = append(paths, movedFrom, movedFrom, movedFrom)
+		}
+	}
+	c.Config = genConfig(t, "breaking", paths, protogen.SortedKeys(hot))
 	return c
 }
 
